@@ -141,6 +141,63 @@ fn victim_service(rec: &Arc<Recorder>) -> Router {
         .route("/svc.Name/*rest", rec.service())
 }
 
+/// Fuzz entry: one inbound request stream handled in-process the way the per-stream handler
+/// does it (read_request -> service -> write_response), with the victim's Router as service.
+pub fn fuzz_stream(data: &[u8]) -> Result<(), Fail> {
+    use futures::FutureExt;
+    use tower::ServiceExt;
+    thread_local! {
+        static VICTIM: (Arc<Recorder>, Router) = {
+            let rec = Recorder::new(tokio::time::Instant::now());
+            rec.resp_cap.store(60_000, std::sync::atomic::Ordering::Relaxed);
+            let r = victim_service(&rec);
+            (rec, r)
+        };
+    }
+    let mut cfg = anemo::Config::default();
+    cfg.max_frame_size = Some(64 * 1024);
+    let req = match anemo::verif::wire::read_request(&cfg, data).now_or_never() {
+        None => vfail!("c06:stream-decoder-pending", "request decoder pending on a finite stream"),
+        Some(Err(_)) => return Ok(()), // rejected: affects only its own stream
+        Some(Ok(r)) => r,
+    };
+    let route = req.route().to_string();
+    let hm = req.headers().clone();
+    let body = req.body().clone();
+    let router = VICTIM.with(|v| v.1.clone());
+    VICTIM.with(|v| v.0.log.lock().unwrap().clear());
+    // handler delays are virtual sleeps: poll on a paused runtime
+    let rt = tokio::runtime::Builder::new_current_thread().enable_time().start_paused(true).build().unwrap();
+    let resp = rt.block_on(async move { tokio::time::timeout(Duration::from_secs(100_000_000), router.oneshot(req)).await });
+    let resp = match resp {
+        Ok(Ok(r)) => r,
+        Ok(Err(_)) => unreachable!(),
+        Err(_) => return Ok(()), // a never-finishing handler was requested by the control block
+    };
+    let mut out = Vec::new();
+    match anemo::verif::wire::write_response(&cfg, &mut out, resp).now_or_never() {
+        None => vfail!("c06:stream-encoder-pending", "response encoder pending"),
+        Some(Err(_)) => return Ok(()), // oversize response refused by the sender: this RPC fails, nothing else
+        Some(Ok(())) => {}
+    }
+    let (r, used) = match rw::decode_response(&out, usize::MAX) {
+        Ok(x) => x,
+        Err(e) => vfail!("c06:stream-bad-response", "the response written for a decodable request does not follow the layout: {e:?}"),
+    };
+    vensure!(used == out.len(), "c06:stream-bad-response", "trailing bytes after the response");
+    // routed to the recorder => exactly F(request); otherwise NotFound
+    let matched = route == "/exact" || route.starts_with("/wild/") || route.starts_with("/svc.Name/");
+    if matched {
+        let exp = crate::simnet::recorder::expected_response_capped(&route, &hm, &body, 60_000);
+        let mut want: Vec<_> = exp.headers.into_iter().collect();
+        want.sort();
+        vensure!(r.status == exp.status && r.headers == want && r.body == exp.body.as_ref(), "c06:stream-wrong-response", "request on {route:?}: response is not the handler's (status {} vs {})", r.status, exp.status);
+    } else {
+        vensure!(r.status == 404, "c06:stream-wrong-response", "unmatched route {route:?} answered with status {}", r.status);
+    }
+    Ok(())
+}
+
 pub fn check(case: &Case, obs: &mut Obs) -> Result<(), Fail> {
     let case = case.clone();
     run_sim(41, case.link_delay_ms.max(1) as u64, |sim| async move {
